@@ -123,19 +123,50 @@ def parse_assumptions(out):
     return names, closed
 
 
-def hygiene():
-    """grep the whole development for forbidden vernacular. Returns list of hits."""
+def dependency_cone(targets):
+    """.v files (relative to coq/) that the given .vo targets depend on, from coq_makefile's .Makefile.d;
+    None if it cannot be determined."""
+    dep = os.path.join(COQ, ".Makefile.d")
+    if not os.path.exists(dep):
+        return None
+    graph = {}
+    for line in open(dep).read().replace("\\\n", " ").splitlines():
+        if ":" not in line:
+            continue
+        lhs, rhs = line.split(":", 1)
+        outs = [x for x in lhs.split() if x.endswith(".vo")]
+        deps = [x for x in rhs.split() if x.endswith(".vo") and not x.startswith("/")]
+        for o in outs:
+            graph.setdefault(o, set()).update(deps)
+    seen, todo = set(), [t for t in targets]
+    while todo:
+        t = todo.pop()
+        if t in seen:
+            continue
+        seen.add(t)
+        todo += list(graph.get(t, ()))
+    return sorted(x[:-1] for x in seen)   # .vo -> .v
+
+
+def hygiene(targets=None):
+    """grep the development (the dependency cone of [targets] when given, else everything) for
+    forbidden vernacular. Returns list of hits."""
     hits = []
-    for root, _, files in os.walk(COQ):
-        for fn in files:
-            if not fn.endswith(".v"):
-                continue
-            p = os.path.join(root, fn)
-            txt = open(p, encoding="utf-8").read()
-            txt_nc = strip_coq_comments(txt)
-            for i, line in enumerate(txt_nc.splitlines(), 1):
-                if FORBIDDEN.search(line):
-                    hits.append("%s:%d: %s" % (os.path.relpath(p, VERIF), i, line.strip()))
+    files = None
+    if targets:
+        cone = dependency_cone(targets)
+        if cone:
+            files = [os.path.join(COQ, f) for f in cone if os.path.exists(os.path.join(COQ, f))]
+    if files is None:
+        files = []
+        for root, _, fs in os.walk(COQ):
+            files += [os.path.join(root, fn) for fn in fs if fn.endswith(".v")]
+    for p in files:
+        txt = open(p, encoding="utf-8").read()
+        txt_nc = strip_coq_comments(txt)
+        for i, line in enumerate(txt_nc.splitlines(), 1):
+            if FORBIDDEN.search(line):
+                hits.append("%s:%d: %s" % (os.path.relpath(p, VERIF), i, line.strip()))
     proj = open(os.path.join(COQ, "_CoqProject")).read()
     if re.search(r"type-in-type|impredicative-set|-vos|-vok", proj):
         hits.append("_CoqProject: forbidden flag")
@@ -212,7 +243,7 @@ def prove(pid, proof_dirs, extra_targets=(), timeout=1500):
     if n_seen < n_print:
         res["ok"] = False
         res["failures"].append("Print Assumptions output incomplete (%d of %d)" % (n_seen, n_print))
-    hits = hygiene()
+    hits = hygiene(targets)
     if hits:
         res["ok"] = False
         res["failures"].append("hygiene: " + "; ".join(hits[:5]))
